@@ -177,6 +177,48 @@ pub fn check(c: &Case, cs: &mut CaseStats) -> Result<(), String> {
             }
             cs.count("sphere3", 1);
         }
+        // thin triangles (affinely independent, badly conditioned): smallest angle theta =
+        // 1e-1 .. 1e-8 rad, as a needle (two points close together) or flat (one point almost on
+        // the segment between the other two), every argument order. A sphere through three
+        // points is determined up to a relative error of about u / sin(theta) (the circumradius of
+        // the perturbed triangle); tolerance 1e-12 / sin(theta) relative to the radius.
+        {
+            let u = (b - a).normalize();
+            let w0 = (cc - a) - (cc - a).dot(u) * u;
+            if w0.length() > 1e-3 * (cc - a).length() {
+                let w = w0.normalize();
+                let theta = 10f64.powf(-1. - 7. * f[33].abs().min(1.));
+                let len = edge;
+                let flat = mode % 4 >= 2;
+                // needle: apex angle theta at p0; flat: angle pi - theta at p1
+                let p0 = a;
+                let (p1, p2) = if flat {
+                    (a + 0.5 * len * (1. + 0.3 * f[32]) * u + 0.5 * len * theta * w, a + len * u)
+                } else {
+                    (a + len * u, a + len * (1. + 0.3 * f[32]) * (theta.cos() * u + theta.sin() * w))
+                };
+                let tol_rel = 1e-12 / theta.sin() + 1e-13;
+                for (x, y, z) in [(p0, p1, p2), (p1, p2, p0), (p2, p0, p1), (p1, p0, p2)] {
+                    let s3 = Sphere::from_three_points(x, y, z);
+                    if !(s3.radius.is_finite() && s3.radius > 0.) {
+                        return Err(format!("from_three_points on a thin triangle (smallest angle {:e}) returns radius {}", theta, s3.radius));
+                    }
+                    let nrm = (y - x).cross(z - x).normalize();
+                    let mut worst: f64 = ((s3.center - x).dot(nrm) / s3.radius).abs();
+                    for p in [x, y, z] {
+                        worst = worst.max(((s3.center.distance(p) - s3.radius) / s3.radius).abs());
+                    }
+                    cs.max("sphere3_thin_residual_over_tol", worst / tol_rel);
+                    if !(worst <= tol_rel) {
+                        return Err(format!(
+                            "from_three_points({:?}, {:?}, {:?}) (thin triangle, smallest angle {:e} rad, {}): the points / the plane miss the sphere (centre {:?}, radius {:e}) by {:e} of the radius (tol {:e})",
+                            x, y, z, theta, if flat { "flat" } else { "needle" }, s3.center, s3.radius, worst, tol_rel
+                        ));
+                    }
+                }
+                cs.count("sphere3_thin", 1);
+            }
+        }
         if nondeg {
             let s4 = Sphere::from_four_points(a, b, cc, d);
             let cond = edge.powi(3) / vol.abs();
@@ -252,12 +294,12 @@ pub fn check(c: &Case, cs: &mut CaseStats) -> Result<(), String> {
 pub fn def() -> PropDef {
     PropDef {
         id: "C19",
-        rule: "cases: 36 random reals per case combined into planes (unit and non-unit normals, |det| of the unit normals >= 1e-3), points (tetrahedron volume / edge^3 >= 1e-4, triangle area / edge^2 >= 1e-3), spheres and extension points, magnitudes 1e-3 .. 1e6, coordinates deliberately asymmetric (offsets that make all components distinct and non-zero); oracle = the defining equations with tolerances scaled by magnitude and conditioning: intersection on all three planes; projections on the plane / on both planes, along the normal / perpendicular to the line, idempotent, symmetric; signed volume and area antisymmetric, sign per the documented counter-clockwise convention, magnitude equal to base x height / 3 and Heron; spheres through their points, three-point centre in the plane, two-point centre at the midpoint; extend (of a sphere of positive radius, of a single-point sphere of radius exactly 0 built either way, of a two-point sphere): unchanged if contained, else new point on the sphere, radius (r + |x-c|)/2, old sphere internally tangent; a single point extended by itself is unchanged; from_boundary_points dispatches by length. non-trivial: all coordinates pairwise distinct and non-zero; distinct by case hash.",
+        rule: "cases: 36 random reals per case combined into planes (unit and non-unit normals, |det| of the unit normals >= 1e-3), points (tetrahedron volume / edge^3 >= 1e-4, triangle area / edge^2 >= 1e-3), spheres and extension points, magnitudes 1e-3 .. 1e6, coordinates deliberately asymmetric (offsets that make all components distinct and non-zero); oracle = the defining equations with tolerances scaled by magnitude and conditioning: intersection on all three planes; projections on the plane / on both planes, along the normal / perpendicular to the line, idempotent, symmetric; signed volume and area antisymmetric, sign per the documented counter-clockwise convention, magnitude equal to base x height / 3 and Heron; spheres through their points, three-point centre in the plane, two-point centre at the midpoint; three-point spheres also on thin triangles (smallest angle 1e-1..1e-8 rad, needle and flat, every argument order; points on the sphere and centre in the plane to 1e-12 / sin(theta) of the radius); extend (of a sphere of positive radius, of a single-point sphere of radius exactly 0 built either way, of a two-point sphere): unchanged if contained, else new point on the sphere, radius (r + |x-c|)/2, old sphere internally tangent; a single point extended by itself is unchanged; from_boundary_points dispatches by length. non-trivial: all coordinates pairwise distinct and non-zero; distinct by case hash.",
         strategy,
         check,
         cases: |t| t.pick(40_000, 5_000_000),
         profiles: &["release"],
-        required: &["intersect_planes", "project_onto_non_unit_normal", "project_onto_intersection", "signed_measures", "sphere3", "sphere4", "extend_outside", "extend_contained", "extend_single_point"],
+        required: &["intersect_planes", "project_onto_non_unit_normal", "project_onto_intersection", "signed_measures", "sphere3", "sphere3_thin", "sphere4", "extend_outside", "extend_contained", "extend_single_point"],
         fixed: None,
         assumptions: &["non-degenerate arguments as quantified by the property (thresholds above)"],
     }
